@@ -64,3 +64,56 @@ func TestCmpConstAgainstEval(t *testing.T) {
 		}
 	}
 }
+
+func TestCmpToIntConst(t *testing.T) {
+	c := NewCtx()
+	x := c.Var("x", BV(64))
+	ch := c.FMul(c.SToF(x, F64), c.F64C(0.005))
+	for _, K := range []int64{0, 1, -1, 5, 1000, -77, 1 << 40} {
+		for op := 0; op < 4; op++ {
+			r := c.cmpToIntConst(ch, op, K)
+			if r == nil {
+				t.Fatal("nil")
+			}
+			for _, xv := range []int64{0, 1, -1, 199, 200, 201, -199, -200, -201, 999, 1000, 1001, 1200, 200000, 15399, 15400, 15401, -15400, -15401, 1 << 47, 1<<47 + 3, math.MaxInt64, math.MinInt64, K * 200, K*200 - 1, K*200 + 1, K*200 + 199, K*200 + 200} {
+				v := int64(float64(xv) * 0.005)
+				var want bool
+				switch op {
+				case 0:
+					want = v >= K
+				case 1:
+					want = v > K
+				case 2:
+					want = v <= K
+				case 3:
+					want = v < K
+				}
+				got, _ := Eval(r, Model{"x": uint64(xv)})
+				if (got != 0) != want {
+					t.Fatalf("K=%d op=%d x=%d: got %v want %v (%s)", K, op, xv, got, want, r)
+				}
+			}
+		}
+	}
+}
+
+func TestSmallFToS(t *testing.T) {
+	c := NewCtx()
+	a := c.ZExt(c.Var("a", BV(8)), 64)
+	b := c.ZExt(c.Var("b", BV(8)), 64)
+	for _, k := range []float64{0.005, 0.001, 0.03, -0.02} {
+		r := c.FToS(c.FMul(c.SToF(c.Add(a, b), F64), c.F64C(k)), 64)
+		if r.Op == OpFToS {
+			t.Fatalf("not rewritten for %v", k)
+		}
+		for av := 0; av < 256; av++ {
+			for bv := 0; bv < 256; bv += 5 {
+				got, _ := Eval(r, Model{"a": uint64(av), "b": uint64(bv)})
+				want := int64(float64(av+bv) * k)
+				if int64(got) != want {
+					t.Fatalf("k=%v a=%d b=%d got %d want %d", k, av, bv, int64(got), want)
+				}
+			}
+		}
+	}
+}
